@@ -956,9 +956,10 @@ class InlineCall(StrCompareMixin, pmbl.CallWithKwargs):
     mapper_method = intern('map_inline_call')
 
     def __hash__(self):
-        # A custom `__hash__` function to protect us from unhashasble
-        # dicts that `pmbl.CallWithKwargs` uses internally
-        return hash(self.__getinitargs__())
+        # Hash the canonical (case-folded) string, consistent with the string comparison in
+        # ``StrCompareMixin.__eq__``; this also protects us from the unhashable dict that
+        # ``pmbl.CallWithKwargs`` uses internally
+        return hash(self._canonical(self))
 
     @property
     def name(self):
